@@ -3,7 +3,8 @@
    Proofs/DoIfChain.v and Proofs/MatchFields.v.
    External behaviour is universally quantified: [lower] (bytes.ToLower), [re_match] (Go regexp),
    [any] (bytes.ContainsAny), [ptime] (xtime.ParseTime), [aint] (insane-json AsInt), [re_ok]
-   (regexp.Compile succeeds). *)
+   (regexp.Compile succeeds). The c14_config_* theorems are about fd/util.go extractConditions (a value of the
+   match_fields map as a JSON tree -> the condition handed to isMatch). *)
 From Verif Require Import Base.Sx Base.GoSem Base.Json Model.DoIf Model.MatchFields Proofs.DoIf Proofs.MatchFields
   Proofs.DoIfData Proofs.DoIfChain.
 From Coq Require Import Permutation.
@@ -137,6 +138,68 @@ Theorem c14_match_fields_order :
 Proof. exact match_fields_perm. Qed.
 Print Assumptions c14_match_fields_order.
 
+(* ---- match_fields as written in a configuration: fd/util.go extractConditions ----------------- *)
+(* a value of the match_fields map is a JSON tree; [re_ok] = regexp.Compile succeeds. The translation as coded
+   (first byte a slash -> cfg.CompileRegex, else one exact value; list -> its strings; anything else refused) is
+   the documented kind of test for EVERY value *)
+Theorem c14_config_value_documented :
+  forall re_ok v, extract_value re_ok v = doc_kind re_ok v.
+Proof. exact extract_value_documented. Qed.
+Print Assumptions c14_config_value_documented.
+
+(* a list is ALWAYS the list of its strings taken as exact values (prefixes in the *_prefix modes), whatever its
+   length (0, 1, 2, ...) and whatever the strings look like ("/x/", "/var/log/", ".*") ... *)
+Theorem c14_config_list_exact :
+  forall re_ok vs, extract_value re_ok (JArr (map JStr vs)) = CExact vs.
+Proof. exact extract_list_exact. Qed.
+Print Assumptions c14_config_list_exact.
+
+(* ... and never a regular expression *)
+Theorem c14_config_list_never_regexp :
+  forall re_ok l p, extract_value re_ok (JArr l) <> CRegexp p.
+Proof. exact extract_list_never_regexp. Qed.
+Print Assumptions c14_config_list_never_regexp.
+
+(* ONLY a scalar string delimited by slashes whose inner part compiles is a regular expression (of that inner part) *)
+Theorem c14_config_regexp_iff :
+  forall re_ok v p,
+    extract_value re_ok v = CRegexp p <-> v = JStr (47%N :: p ++ [47%N]) /\ re_ok p = true.
+Proof. exact extract_regexp_iff. Qed.
+Print Assumptions c14_config_regexp_iff.
+
+(* every scalar string that does not start with a slash is one exact value, itself (blanks, dots, stars and all) *)
+Theorem c14_config_scalar_plain :
+  forall re_ok s, starts_with_slash s = false -> extract_value re_ok (JStr s) = CExact [s].
+Proof. exact extract_scalar_plain. Qed.
+Print Assumptions c14_config_scalar_plain.
+
+(* refused: exactly what is neither a list of strings, nor a string without a leading slash, nor a /regexp/ that
+   compiles (numbers, booleans, null, objects, nested lists, "/unterminated", "/", "/(/") *)
+Theorem c14_config_refused_iff :
+  forall re_ok v, extract_value re_ok v = CRefused <-> cfg_accepted re_ok v = false.
+Proof. exact extract_refused_iff. Qed.
+Print Assumptions c14_config_refused_iff.
+
+(* END TO END: whenever the reader accepts a match_fields map, the decision processor.isMatch takes with the
+   conditions the reader built is the documented meaning of the map AS WRITTEN (cfg_spec reads the JSON values
+   directly: list = exact values / prefixes, /.../ = regexp, other string = itself; all / one of the fields;
+   inversion), for every map, mode, inversion and event *)
+Theorem c14_config_match_spec :
+  forall re_match re_ok mode invert cfg conds e,
+    extract_conds re_ok cfg = Some conds ->
+    is_match re_match mode invert conds e = cfg_spec re_match mode invert cfg e.
+Proof. exact config_match_spec. Qed.
+Print Assumptions c14_config_match_spec.
+
+(* a map whose values are all lists is decided without the regexp engine, whatever the strings inside look like *)
+Theorem c14_config_lists_ignore_regexp :
+  forall re1 re2 re_ok mode invert cfg conds e,
+    (forall pv, In pv cfg -> exists l, snd pv = JArr l) ->
+    extract_conds re_ok cfg = Some conds ->
+    is_match re1 mode invert conds e = is_match re2 mode invert conds e.
+Proof. exact config_lists_ignore_regexp. Qed.
+Print Assumptions c14_config_lists_ignore_regexp.
+
 (* ---- the second caller of a checker: antispam rules (pipeline/antispam) ----------------------- *)
 (* the data is (record bytes, source name, meta map); field operations over  event | source_name |
    meta.<key>  and and / or / not are supported, every other path is absent and the length /
@@ -248,3 +311,24 @@ Example c14_chain_nonvacuous :
             [ex_line [105]%N; ex_line [101]%N; ex_line []; ex_line [105]%N; ex_line [105]%N]
   = [([false; true], true); ([true; false], false); ([true; false], false); ([true; true], true); ([false; true], true)].
 Proof. vm_compute. reflexivity. Qed.
+
+(* match_fields as written: `p: ["/x/"]` (a list of ONE string between slashes) is the exact value "/x/" and not the
+   regexp x; `p: /x/` is the regexp; `p: ["/var"]` is accepted, `p: /var` and `p: 5` are refused *)
+Definition ex_sl_x : bytes := [47; 120; 47]%N.
+Definition ex_re_contains (p s : bytes) : bool := contains s p.          (* stands for an unanchored literal pattern *)
+Definition ex_cfg (v : json) : list (list bytes * json) := [([[112]%N], v)].
+Definition ex_cfg_event (s : bytes) : json := JObj [([112]%N, JStr s)].
+Example c14_config_nonvacuous :
+  extract_conds all_ok (ex_cfg (JArr [JStr ex_sl_x]))
+  = Some [ {| c_field := [[112]%N]; c_values := [ex_sl_x]; c_regexp := None |} ]
+  /\ extract_conds all_ok (ex_cfg (JStr ex_sl_x))
+     = Some [ {| c_field := [[112]%N]; c_values := []; c_regexp := Some [120]%N |} ]
+  /\ cfg_spec ex_re_contains MAnd false (ex_cfg (JArr [JStr ex_sl_x])) (ex_cfg_event [97; 120; 98]%N) = false
+  /\ cfg_spec ex_re_contains MAnd false (ex_cfg (JArr [JStr ex_sl_x])) (ex_cfg_event ex_sl_x) = true
+  /\ cfg_spec ex_re_contains MAnd false (ex_cfg (JStr ex_sl_x)) (ex_cfg_event [97; 120; 98]%N) = true
+  /\ cfg_spec ex_re_contains MOrPrefix true (ex_cfg (JArr [JStr ex_sl_x])) (ex_cfg_event [47; 120; 47; 121]%N) = false
+  /\ isSome (extract_conds all_ok (ex_cfg (JArr [JStr [47; 118]%N]))) = true
+  /\ extract_conds all_ok (ex_cfg (JStr [47; 118]%N)) = None
+  /\ extract_conds all_ok (ex_cfg (JNum [53]%N)) = None
+  /\ extract_conds all_ok (ex_cfg (JArr [JArr [JStr [97]%N]])) = None.
+Proof. vm_compute. repeat split. Qed.
